@@ -27,11 +27,13 @@ import (
 	"fmt"
 	"math/rand"
 	"os"
+	"os/exec"
 	"sort"
 	"strings"
 	"time"
 
 	zed "github.com/brimdata/super"
+	sortop "github.com/brimdata/super/runtime/sam/op/sort"
 	"github.com/brimdata/super/zbuf"
 	"github.com/brimdata/super/zson"
 
@@ -39,7 +41,61 @@ import (
 	"verif/flowh"
 )
 
-func main() { core.Main("C06", "model_checking", run) }
+func main() {
+	if os.Getenv("VERIF_C06_CRASHPROBE") != "" {
+		crashProbeChild()
+		return
+	}
+	core.Main("C06", "model_checking", run)
+}
+
+// crashProbeChild runs, in a child process, the variant of finding F-C06-2 that
+// kills the process: record types with DIFFERENT numbers of fields.  The stale
+// per-type-id field index of expr.DotExpr is then out of range for the record
+// type that has the same id in the spill's private context, and DotExpr.Eval
+// panics inside heap.Push (MergeSort.Less) of the second spill.
+func crashProbeChild() {
+	zctx := zed.NewContext()
+	var batches [][]zed.Value
+	for i := 0; i < 3; i++ {
+		a, err := zson.ParseValue(zctx, fmt.Sprintf(`{pad:"x",id:%d,k:%d}`, 2*i+1, 5-i))
+		if err != nil {
+			panic(err)
+		}
+		b, err := zson.ParseValue(zctx, fmt.Sprintf(`{id:%d,pad:"y"}`, 2*i+2))
+		if err != nil {
+			panic(err)
+		}
+		batches = append(batches, []zed.Value{a.Copy(), b.Copy()})
+	}
+	sortop.MemMaxBytes = 1
+	res := flowh.RunReaders(context.Background(), "sort -nulls first k", flowh.Opts{Zctx: zctx}, zctx, &batchReader{batches: batches})
+	fmt.Printf("ROWS %s ERR %v\n", strings.Join(res.Rows, " "), res.Err)
+}
+
+// crashProbe reports the crash variant of F-C06-2 (see crashProbeChild).
+func crashProbe(c *core.Ctx) {
+	cmd := exec.Command(os.Args[0])
+	cmd.Env = append(os.Environ(), "VERIF_C06_CRASHPROBE=1")
+	out, err := cmd.CombinedOutput()
+	c.Eval("sort-crashprobe", true)
+	const want = `ROWS {id:2,pad:"y"} {id:4,pad:"y"} {id:6,pad:"y"} {pad:"x",id:5,k:3} {pad:"x",id:3,k:4} {pad:"x",id:1,k:5} ERR <nil>`
+	w := map[string]any{"kind": "crashprobe", "program": "sort -nulls first k", "mem_max_bytes": 1,
+		"batches": []string{`{pad:"x",id:1,k:5} {id:2,pad:"y"}`, `{pad:"x",id:3,k:4} {id:4,pad:"y"}`, `{pad:"x",id:5,k:3} {id:6,pad:"y"}`}}
+	switch {
+	case err != nil && strings.Contains(string(out), "index out of range"):
+		c.Add("f2_crash_variant_reproduced", 1)
+		c.Violate(sigF2, "`sort -nulls first k` with three spilled runs over records {pad,id,k} / {id,pad} panics (index out of range in expr.DotExpr.Eval under spill.MergeSort.Less): the process crashes", w)
+	case err != nil:
+		tail := string(out)
+		if len(tail) > 600 {
+			tail = tail[len(tail)-600:]
+		}
+		c.Inconclusive("crash probe child failed unexpectedly: %v: %s", err, tail)
+	case !strings.Contains(string(out), want):
+		c.Violate(sigF2, "`sort -nulls first k` with three spilled runs over records {pad,id,k} / {id,pad} returns a wrong order: "+strings.TrimSpace(string(out)), w)
+	}
+}
 
 const sigF1 = "preorder-not-transitive:int~float~int:above-2^53"
 const sigF2 = "sort-spill-differs:key-field-index-varies-by-record-type"
@@ -57,7 +113,14 @@ func run(c *core.Ctx) error {
 	if c.Replay != "" {
 		return replay(c, u)
 	}
+	// spill files on tmpfs when available (the default TMPDIR is the on-disk scratch dir)
+	if d, err := os.MkdirTemp("/dev/shm", "verif-C06-"); err == nil {
+		os.Setenv("TMPDIR", d)
+		defer os.RemoveAll(d)
+	}
 	// VERIF_C06_PHASES (development aid): comma-separated subset of order,sort,merge.
+	// VERIF_C06_CORRUPT (binding self-test): cmp | bulk | sortcase | mergeout corrupts one
+	// recorded / predicted value; the conformance step must then reject (exit 2 or DRIFT).
 	phases := os.Getenv("VERIF_C06_PHASES")
 	on := func(p string) bool { return phases == "" || strings.Contains(phases, p) }
 	t0 := time.Now()
@@ -122,6 +185,13 @@ func orderPhase(c *core.Ctx, u *universe) (*orderRel, error) {
 		perCfg = 600
 	}
 	rel.genSamples(rand.New(rand.NewSource(c.Seed+6)), perCfg)
+	switch os.Getenv("VERIF_C06_CORRUPT") {
+	case "cmp": // one recorded comparison result
+		rel.cmp["am"][20][90] = -rel.cmp["am"][20][90]
+	case "bulk": // one recorded SortStable output
+		o := rel.samples[5].Out
+		o[0], o[len(o)-1] = o[len(o)-1], o[0]
+	}
 	n := len(u.vals)
 	for i := 0; i < n; i++ {
 		for j := 0; j < n; j++ {
@@ -404,6 +474,14 @@ func sortPhase(c *core.Ctx, u *universe, rel *orderRel) error {
 	if err != nil {
 		return err
 	}
+	if os.Getenv("VERIF_C06_CORRUPT") == "sortcase" { // one predicted output
+		for i := range cases {
+			if o := cases[i].Out; len(o) >= 3 && cases[i].Keys[o[0]-1] != cases[i].Keys[o[len(o)-1]-1] {
+				o[0], o[len(o)-1] = o[len(o)-1], o[0]
+				break
+			}
+		}
+	}
 	c.Logf("SortSpill.tla: %d distinct states, %d behaviours exported (invariants hold); mutant spec rejected (%s)", res.Distinct, len(cases), mut.Violated)
 	c.Set("sort_behaviours_from_tlc", len(cases))
 	if len(cases) == 0 {
@@ -431,6 +509,7 @@ func sortPhase(c *core.Ctx, u *universe, rel *orderRel) error {
 	if c.Count("sort_cases_with_merge_of_2plus_runs") == 0 {
 		c.Inconclusive("no replayed sort case merged two or more spilled runs (vacuous)")
 	}
+	crashProbe(c)
 	c.Set("exhaustive", true)
 	return nil
 }
@@ -485,6 +564,14 @@ func mergePhase(c *core.Ctx, u *universe) error {
 		allowed[k][string(oj)] = true
 	}
 	sort.Strings(order)
+	if os.Getenv("VERIF_C06_CORRUPT") == "mergeout" { // forget the behaviours of one input
+		for _, k := range order {
+			if len(inputs[k]) >= 2 && len(allowed[k]) == 1 {
+				allowed[k] = map[string]bool{"[]": true}
+				break
+			}
+		}
+	}
 	c.Logf("MergeOp.tla: %d distinct states, %d behaviours over %d inputs (invariants hold); mutant spec rejected (%s)", res.Distinct, len(behs), len(order), mut.Violated)
 	c.Set("merge_behaviours_from_tlc", len(behs))
 	c.Set("merge_inputs_from_tlc", len(order))
@@ -646,6 +733,8 @@ func replay(c *core.Ctx, u *universe) error {
 		if bad {
 			c.Violate(sig, "replayed: merge output is not a sorted permutation of the parents", w)
 		}
+	case "crashprobe":
+		crashProbe(c)
 	case "cmerge":
 		var w struct {
 			Parents mergeInput `json:"parents"`
